@@ -1,7 +1,6 @@
 from __future__ import annotations
 
 import functools
-import itertools
 import operator
 
 from packaging.specifiers import InvalidSpecifier as PkgInvalidSpecifier
@@ -18,7 +17,11 @@ from dep_logic.specifiers.generic import GenericSpecifier
 from dep_logic.specifiers.range import RangeSpecifier
 from dep_logic.specifiers.special import AnySpecifier, EmptySpecifier
 from dep_logic.specifiers.union import UnionSpecifier
-from dep_logic.utils import is_not_suffix, version_split
+
+
+def _stable_version(epoch: int, release: tuple[int, ...]) -> Version:
+    """The final release ``release + (0,)`` of the given epoch."""
+    return Version(f"{epoch}!{'.'.join(map(str, release))}.0")
 
 
 def from_specifierset(spec: SpecifierSet) -> VersionSpecifier:
@@ -48,21 +51,16 @@ def _from_pkg_specifier(spec: Specifier) -> VersionSpecifier:
             include_min = True
             include_max = True
         else:
-            version_parts = list(
-                itertools.takewhile(lambda x: x != "*", version_split(version))
-            )
-            min = Version(".".join([*version_parts, "0"]))
-            version_parts[-1] = str(int(version_parts[-1]) + 1)
-            max = Version(".".join([*version_parts, "0"]))
+            prefix = Version(version[:-2])  # strip the trailing ".*"
+            release = prefix.release
+            min = _stable_version(prefix.epoch, release)
+            max = _stable_version(prefix.epoch, (*release[:-1], release[-1] + 1))
             include_min = True
             include_max = False
     elif op == "~=":
         min = Version(version)
-        version_parts = list(
-            itertools.takewhile(is_not_suffix, version_split(version))
-        )[:-1]
-        version_parts[-1] = str(int(version_parts[-1]) + 1)
-        max = Version(".".join([*version_parts, "0"]))
+        release = min.release[:-1]
+        max = _stable_version(min.epoch, (*release[:-1], release[-1] + 1))
         include_min = True
         include_max = False
     elif op == "!=":
@@ -76,12 +74,10 @@ def _from_pkg_specifier(spec: Specifier) -> VersionSpecifier:
                 simplified=str(spec),
             )
         else:
-            version_parts = list(
-                itertools.takewhile(lambda x: x != "*", version_split(version))
-            )
-            left = Version(".".join([*version_parts, "0"]))
-            version_parts[-1] = str(int(version_parts[-1]) + 1)
-            right = Version(".".join([*version_parts, "0"]))
+            prefix = Version(version[:-2])  # strip the trailing ".*"
+            release = prefix.release
+            left = _stable_version(prefix.epoch, release)
+            right = _stable_version(prefix.epoch, (*release[:-1], release[-1] + 1))
             return UnionSpecifier(
                 (
                     RangeSpecifier(max=left, include_max=False),
